@@ -40,6 +40,8 @@ func init() {
 			{ID: "C03.R18", Floor: 1, Run: noNarrowParamSums, Text: "sums with caller-supplied values are at least 64 bits wide in Query methods: a uint32 sum of the current row and the step wraps, so Step(k) lands on an entity where k calls of Next would have exhausted the query"},
 			{ID: "C03.R19", Floor: 10, Run: freshRelationFilterPerCall, Text: "generic FilterN.Filter hands out a relation filter of its own for a per-call target (= C18.R22): an open query keeps the target it was built with"},
 			{ID: "C03.R20", Floor: 1, Run: recycleAfterTableEvents, Text: "handles are recycled only after the removal events of their table were delivered (= C02.R21): a query opened inside a removal event yields no dead entity"},
+			{ID: "C03.R21", Floor: 4, Run: noRelationRegionIgnoresRelationFilter, Text: "tables without a relation are selected by the component filter alone: where a table or node is known to have no relation and the filter is matched, no selector asks whether the filter is a *RelationFilter (all selectors agree)"},
+			{ID: "C03.R22", Floor: 10, Run: pagedLoopsCoverList, Text: "counter loops over a paged list cover it: `for j = 0; j < B; j++ { L.Get(j) }` has B = L.Len(), not a value computed from it (inactive slots sit anywhere in the list)"},
 		},
 	})
 }
